@@ -64,20 +64,27 @@ __CPROVER_ensures(RV == (OLD(*len) > (size_t) INT_MAX - OLD(*count)))
 size_t nni_aio_iov_advance(nni_aio *aio, size_t n)
 __CPROVER_requires(IOV_PRE(aio))
 __CPROVER_assigns(aio->a_nio, __CPROVER_object_upto(&aio->a_iov[0], sizeof(aio->a_iov)))
+__CPROVER_ensures(aio->a_nio <= VIOV_MAX && aio->a_nio <= OLD(aio->a_nio))
+#if !defined(ADV_PART) || ADV_PART == 1
 /* left-over count: what the vector could not supply */
 __CPROVER_ensures(RV == (n <= ADV_T0 ? (size_t) 0 : n - ADV_T0))
-/* exactly n bytes (or all there were) are gone */
-__CPROVER_ensures(aio->a_nio <= VIOV_MAX && IOV_TOTAL(IOV_CL, IOV_CN, aio) == (n <= ADV_T0 ? ADV_T0 - n : (size_t) 0))
-/* BYTE VIEW: byte k of what remains is byte k+n of the original sequence (same buffer, same offset) */
-__CPROVER_ensures((n <= ADV_T0 && g_k < ADV_T0 - n) ==> IOV_LOC(IOV_CL, IOV_CB, IOV_CN, aio, g_k) == IOV_LOC(IOV_OL, IOV_OB, IOV_ON, aio, g_k + n))
+#endif
+#if !defined(ADV_PART) || ADV_PART == 2
 /* ENTRY VIEW: entries used up completely are dropped from the front, in order ... */
 __CPROVER_ensures(aio->a_nio == OLD(aio->a_nio) - ADV_D)
-/* ... the first survivor loses its consumed front part ... */
-__CPROVER_ensures((aio->a_nio > 0 && g_n == ADV_D && g_n < VIOV_MAX) ==> (aio->a_iov[0].iov_len == OLD(aio->a_iov[g_n & 7u].iov_len) - (n - IOV_PJ(IOV_OL, IOV_ON, aio, g_n)) && (char *) aio->a_iov[0].iov_buf == (char *) OLD(aio->a_iov[g_n & 7u].iov_buf) + (n - IOV_PJ(IOV_OL, IOV_ON, aio, g_n))))
-/* ... later survivors move down unchanged (g_n: instantiation hint, the old position of new entry g_j) ... */
-__CPROVER_ensures((g_j >= 1 && g_j < aio->a_nio && g_n == g_j + ADV_D && g_n < VIOV_MAX) ==> (aio->a_iov[J7].iov_len == OLD(aio->a_iov[g_n & 7u].iov_len) && aio->a_iov[J7].iov_buf == OLD(aio->a_iov[g_n & 7u].iov_buf)))
+#endif
+#if !defined(ADV_PART) || ADV_PART == 3
+/* ... the first survivor loses its consumed front part: strictly less than its length, so the
+ * buffer position stays inside the buffer ... */
+__CPROVER_ensures((aio->a_nio > 0 && g_n == ADV_D && g_n < VIOV_MAX) ==> (n - IOV_PJ(IOV_OL, IOV_ON, aio, g_n) < OLD(aio->a_iov[g_n & 7u].iov_len) || n == IOV_PJ(IOV_OL, IOV_ON, aio, g_n)))
+__CPROVER_ensures((aio->a_nio > 0 && g_n == ADV_D && g_n < VIOV_MAX) ==> (aio->a_iov[0].iov_len == OLD(aio->a_iov[g_n & 7u].iov_len) - (n - IOV_PJ(IOV_OL, IOV_ON, aio, g_n)) && (n == IOV_PJ(IOV_OL, IOV_ON, aio, g_n) ? aio->a_iov[0].iov_buf == OLD(aio->a_iov[g_n & 7u].iov_buf) : (char *) aio->a_iov[0].iov_buf == (char *) OLD(aio->a_iov[g_n & 7u].iov_buf) + (n - IOV_PJ(IOV_OL, IOV_ON, aio, g_n)))))
+#endif
+#if !defined(ADV_PART) || ADV_PART == 4
+/* ... later survivors move down unchanged, in order (g_n: instantiation hint, the old position of new entry g_j) ... */
+__CPROVER_ensures((g_j >= 1 && g_j < aio->a_nio && g_n == g_j + (OLD(aio->a_nio) - aio->a_nio) && g_n < VIOV_MAX) ==> (aio->a_iov[J7].iov_len == OLD(aio->a_iov[g_n & 7u].iov_len) && aio->a_iov[J7].iov_buf == OLD(aio->a_iov[g_n & 7u].iov_buf)))
 /* ... vacated slots are marked (NULL, 0), slots never in use are untouched */
 __CPROVER_ensures((g_j >= aio->a_nio && g_j < OLD(aio->a_nio)) ==> (aio->a_iov[J7].iov_len == 0 && aio->a_iov[J7].iov_buf == NULL))
 __CPROVER_ensures((g_j >= OLD(aio->a_nio) && g_j < VIOV_MAX) ==> IOV_ENTRY_SAME(aio))
+#endif
 ;
 #endif
